@@ -46,6 +46,7 @@ def strategy_impl(draw, tier, nonreversed=False):
         # listing order of the faces / axes in the face_connections dictionaries (must not matter)
         "face_order": list(draw(st.permutations(list(range(Kx * Ky))))),
         "reverse_axes": draw(st.booleans()),
+        "flag_style": draw(st.sampled_from(["python", "python", "numpy", "int"])),   # type of the reverse flags / face numbers in the links
         "carry_coords": draw(st.booleans()),   # the input carries the dataset's coordinates (face labels included) or none
     }
 
@@ -104,7 +105,7 @@ def check(case, ctx):
     if case["bsrc"] == "grid":
         kw = {"boundary": case["boundary"], "fill_value": case["fill"]}
     has_links = any(l is not None for per in table.values() for sides in per.values() for l in sides)
-    fc = gen.table_to_xgcm(table_json(table), face_order=case.get("face_order"), reverse_axes=case.get("reverse_axes", False)) if has_links else None
+    fc = gen.table_to_xgcm(table_json(table), face_order=case.get("face_order"), reverse_axes=case.get("reverse_axes", False), flag_style=case.get("flag_style", "python")) if has_links else None
     grid = must_return("Grid construction", Grid, ds, coords=gc, face_connections=fc, autoparse_metadata=False, periodic=False, **kw)
     base_dims = ["face"] + [e[0] for e in case["extra"]] + ["yc", "xc"]
     da = xr.DataArray(A, dims=base_dims).transpose(*case["dims"])
